@@ -219,6 +219,25 @@ def rand_case(rng, wrap=None, dups=True, moves=True, first_move=False, nflights=
     return case
 
 
+def far_dup_case(rng):
+    """As late_dup_case, but the duplicate is captured more than 300 new segments of its direction after the original
+    (a retransmission seen again after hundreds of 1–3-byte segments: no bounded memory of sequence numbers suffices)."""
+    d = rng.choice("cs")
+    recs = [rec(rng.choice((22, 23)), b"\x03\x03", rng.randbytes(rng.randrange(120, 220))) for _ in range(rng.randrange(6, 9))]
+    fl = {"dir": d, "recs": [r.hex() for r in recs], "cuts": []}
+    total = len(flight_bytes(fl))
+    step = rng.choice((1, 2, 2, 3))
+    fl["cuts"] = list(range(step, total, step))
+    other = {"dir": "s" if d == "c" else "c", "recs": [rand_record(rng).hex()], "cuts": []}
+    case = {"flights": [fl, other], "isn": {"c": rng.choice((1000, W - 200)), "s": rng.choice((5000, W - 300))},
+            "moves": [], "dups": []}
+    nseg = len(fl["cuts"]) + 1
+    for _ in range(rng.randrange(1, 3)):
+        src = rng.randrange(0, max(1, nseg - 320))
+        case["dups"].append([src, rng.randrange(300, max(301, nseg - src - 1))])
+    return case
+
+
 def late_dup_case(rng):
     """A long flight in many small segments with exact duplicates captured MUCH later (≥ 64 further new segments of
     the same direction in between): retransmissions seen again long after the original."""
